@@ -28,7 +28,7 @@ ASSUMPTIONS = ["blocking binary sources only (readinto never returns None)",
                "seekable sources are buffered (documented input contract)"]
 PROBES = ["preamble_runs", "gzip_multi_member", "first_read_lt3", "first_read_1", "frontend_raw", "frontend_buffered", "frontend_gzip", "frontend_duck",
           "frontend_rwpair", "frontend_autoclose", "frontend_greedy", "frontend_strict", "frontend_gzip_pipe",
-          "frontend_seekable_buffered", "nondelimited", "leading_empty_frames", "short_reads_ge10"]
+          "frontend_seekable_buffered", "frontend_nonblocking", "nondelimited", "leading_empty_frames", "short_reads_ge10"]
 SHRINK_LISTS = ["ops", "items"]
 
 
@@ -47,7 +47,7 @@ def generate(rng, run, tier):
         plan["knobs"]["leading_empty"] = rng.random() < 0.5
     plan["consumer"] = rng.choice(["flat", "flat", "grouped", "to_graph", "plugin"])
     plan["frontend"] = rng.choice(["raw", "raw", "buffered", "buffered", "seekable_buffered", "seekable_buffered", "gzip",
-                                   "duck", "rwpair", "bytesio", "autoclose", "greedy", "strict", "gzip_pipe"])
+                                   "duck", "rwpair", "bytesio", "autoclose", "greedy", "strict", "gzip_pipe", "nonblocking"])
     plan["policy"] = rng.choice(["tape", "tape", "tape", "one"])
     plan["bufsize"] = rng.choice([None, None, 1, 2, 3, 4, 16, 8192])
     # the caller may have consumed a preamble from a seekable file before handing it over; the payload then
@@ -128,6 +128,12 @@ def execute(plan, sim):
     key = None
     if nshort and base[0] == "ok":
         key = (data, fe, sim.digest())
+    if fe == "nonblocking" and got[0] == "exc" and sim.faults.get("no_data_yet"):
+        # a source that answers "no data yet" (None) is outside the documented input contract: refusing it is
+        # fine.  What must not happen is the silent alternative: taking "no data yet" for the end of the stream
+        # and returning fewer statements.
+        sim.count("nonblocking_refused")
+        return [], key
     if got != base:
         sig = {"frontend": fe, "first_read_lt3": bool(first is not None and first < 3 and fe in ("raw", "buffered", "duck", "rwpair")),
                "delimited": delimited}
